@@ -50,33 +50,42 @@ package jsonparser
 // reflect kind preconditions are guarded by Kind() tests in the code and are not modelled).
 //@ func (*reconstructor).reconstructValue
 //@   opt safety bounds
+//@   opt arith wrap64
 //@   modifies *
 //@ func (*reconstructor).reconstructPacket
 //@   opt safety bounds
+//@   opt arith wrap64
 //@   modifies *
 //@ func (*reconstructor).reconstructStruct
 //@   opt safety bounds
+//@   opt arith wrap64
 //@   modifies *
 //@ func (*reconstructor).reconstructBinaryValue
 //@   opt safety bounds
+//@   opt arith wrap64
 //@   modifies *
 //@ func (*reconstructor).reconstructMap
 //@   opt safety bounds
+//@   opt arith wrap64
 //@   modifies *
 //@ func (*reconstructor).reconstructMap$1
 //@   opt safety bounds
+//@   opt arith wrap64
 //@ func (*reconstructor).reconstruct
 //@   opt safety bounds
+//@   opt arith wrap64
 //@   requires r.header != nil
 //@   modifies *
 //@   callsite Unmarshal
 //@     assume r.header == pre(r.header) && r.header.Type == pre(r.header.Type) // JSON decoding into the handler's values does not reach the packet header
 //@ func (*reconstructor).decode
 //@   opt safety bounds
+//@   opt arith wrap64
 //@   modifies *
 //@ func convertTypesToValues
 //@   modifies *
 //@   opt safety bounds
+//@   opt arith wrap64
 //@   ensures len(values) == len(types) [C10.convert.len]
 
 // ---------------------------------------------------------------------------------------------
